@@ -129,7 +129,7 @@ def WFO (n : Nat) : Option (Val α) → Prop
 /-- a dictionary over an alphabet of `n` keys -/
 def WFD (n : Nat) (l : Slots α) : Prop := l.length = n ∧ WFL n l
 
-/-- executable version of `WF` (used by the drivers to reject malformed requests) -/
+-- executable version of `WF` (used by the drivers to reject malformed requests)
 mutual
 def wfB (n : Nat) : Val α → Bool
   | leaf _ => true
